@@ -34,18 +34,18 @@ import (
 )
 
 type nodeStats struct {
-	Ops, Genuine, Mutated, Accepted, Rejected, Panics, Execs                                                                           int
-	Duplicates                                                                                                                         int
-	DuplicateHist                                                                                                                      map[string]int
-	MutationHist                                                                                                                       map[string]int
-	OutcomeHist                                                                                                                        map[string]int
-	Monitors                                                                                                                           []string
-	Samples                                                                                                                            []string
-	Notes                                                                                                                              []string
-	Scenarios                                                                                                                          int
-	C08Compared, C08Resets, TwoRoundScenarios, C08InDealsWindow, ReinitProbes, Reinits                                                 int
-	CancelledRounds                                                                                                                    int
-	C08Late, C08StampsMoved, PrefilledResults, JSONVariants, KeylessReinits, ReinitVariants, ForgedOwnName, CollectedHere, C08RealLoop int
+	Ops, Genuine, Mutated, Accepted, Rejected, Panics, Execs                                                                                            int
+	Duplicates                                                                                                                                          int
+	DuplicateHist                                                                                                                                       map[string]int
+	MutationHist                                                                                                                                        map[string]int
+	OutcomeHist                                                                                                                                         map[string]int
+	Monitors                                                                                                                                            []string
+	Samples                                                                                                                                             []string
+	Notes                                                                                                                                               []string
+	Scenarios                                                                                                                                           int
+	C08Compared, C08Resets, TwoRoundScenarios, C08InDealsWindow, ReinitProbes, Reinits                                                                  int
+	CancelledRounds                                                                                                                                     int
+	C08Late, C08StampsMoved, PrefilledResults, JSONVariants, KeylessReinits, ReinitVariants, ForgedOwnName, CollectedHere, C08RealLoop, ProposalsStored int
 }
 
 func tsTok(t time.Time) string {
@@ -461,6 +461,37 @@ func (r *nodeRun) feedOp(c *cluster, n *vnode, m storage.Message, kind, opName s
 	}
 	toks = append(toks, reconTok...)
 	after := nodeRender(n)
+	// C03: what the node keeps for an accepted proposal (the placeholders of its signature store, under the proposer's name)
+	// is what THAT proposal says: message by message the identifier, file and payload of its expansion
+	if m.Event == "event_signing_start" && outcome == "ok" && json.Unmarshal(m.Data, &prop) == nil && prop.BatchID != "" {
+		want := map[string]expandedMsg{}
+		for _, e := range expandTasks(prop.SigningTasks) {
+			want[e.id] = e // a later task with the same identifier replaces an earlier one
+		}
+		if stor, err := n.sigSvc.GetSignatures(&dto.DkgIdDTO{DkgID: m.DkgRoundID}); err == nil {
+			r.st.ProposalsStored++
+			seenIDs := map[string]bool{}
+			for _, entries := range stor[prop.BatchID] {
+				for _, e := range entries {
+					if e.Username != m.SenderAddr {
+						continue
+					}
+					seenIDs[e.MessageID] = true
+					w, ok := want[e.MessageID]
+					if !ok {
+						r.mon(fmt.Sprintf("C03 stored_eq_proposed: after the proposal %q from %s the node keeps an entry for identifier %q, which the proposal does not contain", prop.BatchID, m.SenderAddr, e.MessageID))
+					} else if !bytes.Equal(w.payload, e.SrcPayload) || w.file != e.File {
+						r.mon(fmt.Sprintf("C03 stored_eq_proposed: after the proposal %q from %s the node keeps for identifier %q the file %q with %d bytes %x…, the proposal says %q with %d bytes %x…", prop.BatchID, m.SenderAddr, e.MessageID, e.File, len(e.SrcPayload), firstBytes(e.SrcPayload), w.file, len(w.payload), firstBytes(w.payload)))
+					}
+				}
+			}
+			for id := range want {
+				if !seenIDs[id] {
+					r.mon(fmt.Sprintf("C03 stored_eq_proposed: after the proposal %q from %s the node keeps nothing for its identifier %q", prop.BatchID, m.SenderAddr, id))
+				}
+			}
+		}
+	}
 	// C06: the batch this message completed was reconstructed and announced by this node: its round is idle again, ready
 	// for the next proposal
 	if len(reconTok) > 0 && outcome == "ok" {
@@ -664,6 +695,21 @@ func (r *nodeRun) mutate(c *cluster, obs *vnode, m storage.Message, otherRound s
 		x.Data = []byte(`{"ParticipantId":-1,"CreatedAt":"2023-01-01T00:00:00Z"}`)
 		x.Signature = ed25519.Sign(c.nodes[senderIdx].kp.Priv, x.Data)
 		add("negative-id-signed", "C18", x, false)
+		// C03: the same proposal id with OTHER tasks, signed by the same participant, shown to the node before the genuine
+		// one (and rolled back): what the node expands, checks and stores for the genuine proposal is what THAT proposal says
+		if m.Event == "event_signing_start" {
+			var req requests.SigningBatchProposalStartRequest
+			if json.Unmarshal(m.Data, &req) == nil {
+				y := clone()
+				q := req
+				q.SigningTasks = []requests.SigningTask{{MessageID: "other", File: "other tasks under the same batch id.bin", Payload: []byte("not what the genuine proposal says")}}
+				if bz, err := json.Marshal(q); err == nil {
+					y.Data = bz
+					y.Signature = ed25519.Sign(c.nodes[senderIdx].kp.Priv, y.Data)
+					out = append(out, mutation{name: "same-batch-other-tasks", msg: y, prop: "C03", try: true})
+				}
+			}
+		}
 		// a signing proposal of a registered participant whose tasks name positions of the built-in list
 		// nobody would propose: before it, across its end, reversed (the API refuses them; the board does not)
 		if m.Event == "event_signing_start" {
@@ -694,6 +740,13 @@ var publicEvents = []string{"event_sig_proposal_init", "event_sig_proposal_confi
 	"event_dkg_commit_confirm_received", "event_dkg_deal_confirm_received", "event_dkg_response_confirm_received", "event_dkg_master_key_confirm_received",
 	"event_dkg_commit_confirm_canceled_by_error", "event_dkg_deal_confirm_canceled_by_error", "event_dkg_response_confirm_canceled_by_error", "event_dkg_master_key_confirm_canceled_by_error",
 	"event_signing_start", "event_signing_partial_sign_received", "event_signing_partial_sign_error_received", "signature_reconstructed", "signature_reconstruction_failed"}
+
+func firstBytes(b []byte) []byte {
+	if len(b) > 8 {
+		return b[:8]
+	}
+	return b
+}
 
 func stripFreshRounds(s string) string {
 	// before fix 463256a a rejected message left an empty round behind for an unknown round id and this
@@ -824,7 +877,7 @@ func (r *nodeRun) scenario(outDir string, n, t int, twoRounds bool) {
 					half = perMsg // self-addressed: everything is tried on the state the genuine message will meet
 				}
 				for i, mu := range muts {
-					if i < half {
+					if i < half || mu.name == "same-batch-other-tasks" {
 						apply(mu) // before the genuine message
 					}
 				}
@@ -848,6 +901,9 @@ func (r *nodeRun) scenario(outDir string, n, t int, twoRounds bool) {
 					}
 				}
 				for i, mu := range muts {
+					if mu.name == "same-batch-other-tasks" {
+						continue // (applied before)
+					}
 					if i >= half && i < perMsg {
 						apply(mu) // after it (replays of an already applied message included)
 					} else if i >= perMsg && (mu.name == "replay-other-round" || mu.name == "recon-names-other-round") && m.Event == string(ctypes.SignatureReconstructed) {
